@@ -175,6 +175,13 @@ def corpus():
     for base in (None, 1):
         out.append(bcase(longside, base, len(lg) - 1, bfmt="4"))
     out.append({"k": "merge", "h": longside, "submit": 1, "tgt": len(lg) - 1, "mode": "2 bundle patch", "msg": None})
+    # cross-serializer install (XML inventories -> 2a) with the parent inventory in the receiving repository
+    cross = bcase(hist("1.14-rich-root", dirfile, [["mod", b"f1", b"x\ny\n"]]), 0, 1, bfmt="4")
+    cross["dfmt"] = "2a"
+    out.append(cross)                                       # C40-v4-cross-format-parent-inventory
+    cross0 = bcase(hist("1.14-rich-root", dirfile, [["mod", b"f1", b"x\ny\n"]]), None, 1, bfmt="4")
+    cross0["dfmt"] = "2a"
+    out.append(cross0)                                      # all parents inside the bundle: fine
     # a v4 bundle that lost its last 30 bytes: read as a stream (the default of install_revisions) the bz2 data
     # just ends, the container is cut short and bzrformats' container reader never returns
     # (C40-v4-truncated-bundle-hangs); without streaming bz2 reports the damage
@@ -918,6 +925,14 @@ def finding_matches(fid, inp, obs, why):
         if fid == "C40-v4-truncated-bundle-hangs":
             # the stream is cut short (or emptied) without a bz2 error: the container reader spins at EOF
             return k == "btamper" and inp["bfmt"] == "4" and bool(obs.get("hang")) and inp.get("stream", True)
+        if fid == "C40-v4-cross-format-parent-inventory":
+            # XML-inventory source, CHK receiver, and some bundled revision has a parent that is not in the bundle
+            if k != "bundle" or inp["bfmt"] != "4" or obs.get("install_error") != "TypeError":
+                return False
+            spec, g = inp["h"], inp["h"]["g"]
+            revs = H.bundled_revs(spec, inp["base"], inp["tgt"])
+            outside = any(p < len(g) and p not in revs for r in revs for p in g[r])
+            return spec["fmt"] != "2a" and inp.get("dfmt") == "2a" and outside
         if k != "bundle" or inp["bfmt"] not in ("0.8", "0.9"):
             return False
         spec, base, tgt = inp["h"], inp["base"], inp["tgt"]
